@@ -25,6 +25,9 @@ pub fn def() -> PropDef {
 }
 
 fn run(sim: &Sim, cfg: &RunCfg) -> RunOut {
+    // the property says "in bounded time" / "without blocking forever": a run that is still going
+    // after the step cap (orders of magnitude above any run on the unchanged tree) is a violation
+    sim.st().cap_clause = Some("livelock");
     sim.choose_policy();
     let sub = cfg.index % 8;
     let i = cfg.index / 8;
